@@ -20,7 +20,8 @@ Clauses(t) ==
     \* ... equivalently the More-Sorensen certificate holds for the returned step
     tre_certificate |-> o.finite => GlobalMinimiser([stat |-> o.stat, lmin |-> o.lmin, lam |-> o.lam, nrm |-> o.nrm]),
     \* mechanism: the case the spec selects for this input class puts the step where it was observed
-    drift_case      |-> o.finite => \/ "interior" \in Cases(o.lmin, o.pn) /\ o.nrm = "in"
+    drift_case      |-> (o.finite /\ o.id < 9000000) =>            \* ids >= 9000000: corrupted copies (binding self-test)
+                                    \/ "interior" \in Cases(o.lmin, o.pn) /\ o.nrm = "in"
                                     \/ Cases(o.lmin, o.pn) \cap {"hard", "secular"} # {} /\ o.nrm = "on" ]
 ClauseNames == {"tre_finite", "tre_inside", "tre_global_min", "tre_certificate", "drift_case"}
 
